@@ -45,7 +45,8 @@ def run(chk):
 # ------------------------------------------------------------------ terms
 
 def cfg_term(c):
-    return '(mkCfg %s %s %s %s %s)' % (blit(c[0]), zlit(c[1]), zlit(c[2]), blit(c[3]), blit(c[4]))
+    return '(mkCfg %s %s %s %s %s %s)' % (blit(c[0]), zlit(c[1]), zlit(c[2]), blit(c[3]), blit(c[4]),
+                                         blit(len(c) > 5 and bool(c[5])))
 
 
 CH = {'stdout': 'COut', 'stderr': 'CErr', 'stdin': 'CIn'}
@@ -67,6 +68,12 @@ def op_term(o):
         return '(WExit %d%%nat)' % o[1]
     if k == 'reap':
         return '(WReap %d%%nat)' % o[1]
+    if k == 'reapfault':
+        return '(WReapFault %d%%nat %s %s)' % (o[1], CH[o[2]], blit(o[3] == 'EIO'))
+    if k == 'reopen':
+        return 'WReopen'
+    if k == 'clear':
+        return '(WClear %d%%nat)' % o[1]
     if k == 'open':
         return 'WOpen'
     if k == 'close':
@@ -125,7 +132,8 @@ def gen_histories(chk, B, E):
             ('spawn', 2, 'ok'),
             ('write', 0, 'stdout', None), ('write', 1, 'stderr', None), ('write', 1, 'stdout', None),
             ('read', 0, 'stdout', 1000), ('read', 1, 'stdout', 1),
-            ('exit', 0), ('reap', 0), ('exit', 1), ('open',), ('close', 3), ('reap', 1)]
+            ('exit', 0), ('reap', 0), ('exit', 1), ('open',), ('close', 3), ('reap', 1),
+            ('reopen',), ('clear', 0), ('clear', 1)]
 
     def fill(seq, variant):
         out = []
@@ -146,7 +154,7 @@ def gen_histories(chk, B, E):
                 continue
             k += 1
             variant = k % 3
-            cfgs = [CF_PLAIN, CF_CAP, CF_PLAIN][variant] if k % 7 else CF_EV
+            cfgs = ([CF_PLAIN, CF_CAP, CF_PLAIN][variant] if k % 7 else CF_EV) if k % 11 else CF_NOLOG
             jobs.append(('exh%d' % n, (cfgs, variant == 2, 3 + (k % 2) * 2, fill(list(seq), variant) + epilogue(3))))
     # the descriptor-reuse scenario of b950ca0 in every order of the two victims
     for a, b in ((0, 1), (1, 0), (0, 2), (2, 0), (1, 2), (2, 1)):
@@ -159,7 +167,7 @@ def gen_histories(chk, B, E):
     # random long histories
     rng = chk.rng
     for _ in range(2500 if quick else 40000):
-        cfgs = rng.choice([CF_PLAIN, CF_CAP, CF_CAP, CF_EV])
+        cfgs = rng.choice([CF_PLAIN, CF_CAP, CF_CAP, CF_EV, CF_NOLOG, CF_DRAIN_EV])
         strip = rng.random() < 0.3
         ops = []
         for _ in range(rng.choice([6, 12, 25])):
@@ -174,8 +182,12 @@ def gen_histories(chk, B, E):
                 ops.append(('read', p, rng.choice(['stdout', 'stdout', 'stderr']), rng.choice([1, 2, 5, 13, 30, 1000])))
             elif r < 0.87:
                 ops.append(('exit', p))
-            elif r < 0.94:
+            elif r < 0.92:
                 ops.append(('reap', p))
+            elif r < 0.93:
+                ops.append(('reapfault', p, rng.choice(['stdout', 'stderr']), rng.choice(['EIO', 'EBADF'])))
+            elif r < 0.94:
+                ops.append(rng.choice([('reopen',), ('clear', p)]))
             elif r < 0.97:
                 ops.append(('open',))
             else:
@@ -185,6 +197,8 @@ def gen_histories(chk, B, E):
 
 
 CF_DRAIN = [(False, 10, 0, False, False), (True, 10, 0, False, False), (False, 0, 4, False, False)]
+CF_DRAIN_EV = [(False, 10, 0, True, True), (True, 10, 0, True, False), (False, 0, 4, True, True)]
+CF_NOLOG = [(False, 10, 0, True, False, True), (True, 0, 0, True, False, True), (False, 0, 4, True, True, True)]
 
 
 def gen_drain(chk, B, E):
@@ -194,7 +208,11 @@ def gen_drain(chk, B, E):
     streams = [b'hello\n', b'ab' + B + b'xyz' + E + b'cd', b'a' + B + b'x' + E + b'm' + B + b'yy' + E + b'z\n',
                b'tail' + B[:7], b'0123456789' * 4 + B + b'Q' * 12 + E, B + b'never closed']
     variants = [(CF_DRAIN, 0, 'stdout', 'stdout'), (CF_DRAIN, 1, 'stderr', 'stdout'), (CF_DRAIN, 2, 'stderr', 'stderr'),
-                (CF_PLAIN, 0, 'stdout', 'stdout')]
+                (CF_PLAIN, 0, 'stdout', 'stdout'),
+                # PROCESS_LOG / PROCESS_COMMUNICATION events for bytes flushed at reap (header: name, pid, channel)
+                (CF_DRAIN_EV, 0, 'stdout', 'stdout'), (CF_DRAIN_EV, 2, 'stderr', 'stderr'), (CF_EV, 1, 'stderr', 'stdout'),
+                # no log file at all: events only
+                (CF_NOLOG, 0, 'stdout', 'stdout')]
     jobs = []
     for s in streams:
         for cfgs, p, wch, rch in variants:
@@ -204,6 +222,11 @@ def gen_drain(chk, B, E):
                     ops += [('write', p, wch, s[:c]), ('read', p, rch, 3000)]
                 if c < len(s):
                     ops.append(('write', p, wch, s[c:]))
+                # a log reopen / clear request between the last read and the reap
+                if (c + len(s)) % 5 == 0:
+                    ops.append(('reopen',))
+                elif (c + len(s)) % 11 == 0:
+                    ops.append(('clear', p))
                 ops += [('exit', p), ('reap', p)]
                 jobs.append(('drain', (cfgs, False, 3, ops)))
     # three parts: read, read, drain
@@ -214,6 +237,64 @@ def gen_drain(chk, B, E):
                    ('write', 0, 'stdout', s[c1:c2]), ('read', 0, 'stdout', 3000), ('write', 0, 'stdout', s[c2:]),
                    ('exit', 0), ('reap', 0)]
             jobs.append(('drain', (CF_DRAIN, False, 3, ops)))
+    return jobs
+
+
+def gen_reapfault(chk, B, E):
+    """A read error on one channel while finish() drains: every byte written to the *other* channel
+    before the exit must still reach that channel's log."""
+    jobs = []
+    k = 0
+    for cfgs, p in ((CF_PLAIN, 0), (CF_DRAIN, 0), (CF_DRAIN, 2), (CF_DRAIN_EV, 2), (CF_PLAIN, 1)):
+        for bad in ('stdout', 'stderr'):
+            for err in ('EIO', 'EBADF'):
+                for pre in (False, True):
+                    for out_data, err_data in ((b'out-tail\n', b'err-tail\n'), (b'', b'only stderr'), (b'only stdout', b''),
+                                               (b'o' + B + b'sec' + E + b'x', b'e' + B + b'sec' + E + b'y' + B[:5])):
+                        k += 1
+                        ops = [('spawn', p, 'ok')]
+                        if pre:
+                            ops += [('write', p, 'stdout', b'first '), ('write', p, 'stderr', b'early '),
+                                    ('read', p, 'stdout', 3000), ('read', p, 'stderr', 3000)]
+                        if out_data:
+                            ops.append(('write', p, 'stdout', out_data))
+                        if err_data:
+                            ops.append(('write', p, 'stderr', err_data))
+                        ops += [('exit', p), ('reapfault', p, bad, err)]
+                        # the process is usable afterwards
+                        ops += [('spawn', p, 'ok'), ('write', p, 'stdout', b'again'), ('exit', p), ('reap', p)]
+                        jobs.append(('reapfault', (cfgs, False, 3 + 2 * (k % 2), ops)))
+    return jobs
+
+
+CF_ROT = [(False, 0, 0, False, False, False, (16, 2)), (True, 0, 0, False, False, False, (16, 1)),
+          (False, 10, 0, False, False, False, (16, 0))]
+
+
+def gen_rotate(chk, B, E):
+    """Rotating child logs (judged on the implementation only; rotation itself is C19's model):
+    k writes of 10 bytes, each read at once (so each is one log record and the handler rolls over
+    after every second one), with a log-reopen request at every position -- before the first
+    rollover (control) and after it -- and a respawn.  backups + current file must be the output in order."""
+    jobs = []
+    for p in (0, 1, 2):
+        for k in range(1, 7):
+            for pos in range(0, k + 2):
+                for again in (False, True):
+                    ops = [('spawn', p, 'ok')]
+                    for i in range(k):
+                        if i == pos:
+                            ops.append(('reopen',))
+                        ops += [('write', p, 'stdout', b'%d:%06d\n' % (p, i)), ('read', p, 'stdout', 3000)]
+                    if pos == k:
+                        ops.append(('reopen',))
+                    ops += [('write', p, 'stdout', b'bye\n'), ('exit', p), ('reap', p)]
+                    if pos == k + 1:
+                        ops.append(('reopen',))
+                    if again:
+                        ops += [('spawn', p, 'ok'), ('write', p, 'stdout', b'second life\n'), ('read', p, 'stdout', 3000),
+                                ('reopen',), ('write', p, 'stdout', b'more\n'), ('exit', p), ('reap', p)]
+                    jobs.append(('rotate', (CF_ROT, False, 3, ops)))
     return jobs
 
 
@@ -315,7 +396,8 @@ def _run(chk, wd, proved):
     import c08_disp as H
     import c07_seam as S
     B, E = H.tokens()
-    hjobs = gen_drain(chk, B, E) + gen_bigdrain(chk, B, E) + gen_histories(chk, B, E)
+    hjobs = (gen_drain(chk, B, E) + gen_reapfault(chk, B, E) + gen_rotate(chk, B, E) + gen_bigdrain(chk, B, E)
+             + gen_histories(chk, B, E))
     corpus = _load_corpus()
     hjobs = [('corpus', j) for j in corpus] + hjobs
     cjobs = gen_chan(chk, H, B, E)
@@ -394,6 +476,8 @@ def _run(chk, wd, proved):
         if verdicts:
             known_ansi += 1
         distinct.add(('w', H.wsum(tr) % 1000003))
+        if fam == 'rotate':
+            continue      # judged above; rotation is not part of the C07 model (see C19)
         sums.append(world_term(job, True, zlit(H.wsum(tr))))
         smeta.append((job, tr))
         if (idx % 25 == 0 or fam in ('reuse', 'corpus')) and fam != 'bigdrain':
